@@ -5,6 +5,7 @@ Payload: {'mode': 'gen', 'seeds': [...], 'tier': ...}  - histories are generated
          {'mode': 'pair', 'cases': [{'pre': snapshot, 'op': op}]} - one call on a constructed state
 After every call the runner records: the normalised call (objects by number), the outcome class,
 a full snapshot by object identity (public getters + raw parent/owner) and the read-only API."""
+import random as _random
 import random
 import signal
 import sys
@@ -718,6 +719,9 @@ class Gen:
         self.used_ids = []
         self.deep_left = 0
         self.queue = []          # calls prepared by an aimed episode, issued at the next steps
+        # decisions of episode variants added later are drawn from a stream of their own: the main stream, and what it is
+        # known to reach, stays as it was
+        self.rng2 = _random.Random('later/%d/%d/%r' % (self.n_ops, self.n_tasks, self.ids))
 
     # ---- choices ----
     def want_illegal(self):
@@ -1495,6 +1499,18 @@ class Gen:
         else:
             second = ['ChRemoveAll', o, [V.tid(c)]], dict(how, facade=k, v=None)
         self.queue = [second]
+        r2 = self.rng2.random()
+        if r2 < 0.4 and first[0][0] == 'ChReorder':
+            # ... and between the two the membership of the list changes through a fresh view (a task joins or leaves);
+            # then a reorder through the kept view: the parent's list must be what the last calls made it
+            if others and self.rng2.random() < 0.6:
+                middle = ['ChAppend', o, self.rng2.choice(others)], dict(how, facade=None)
+                last_ids = self.rng2.sample(kid_ids, self.rng2.randint(1, len(kid_ids)))
+            else:
+                gone = self.rng2.choice(kids)
+                middle = ['ChRemove', o, gone], dict(how, facade=None)
+                last_ids = [i for i in kid_ids if i != V.tid(gone)][:2] or kid_ids[:1]
+            self.queue = [middle, (['ChReorder', o, last_ids], dict(how, facade=k, v=None))]
         return first
 
     def g_ReleaseReuse(self, V):
@@ -1514,6 +1530,20 @@ class Gen:
         wi, r, m, inner = rng.choice(cands)
         g = rng.choice(inner)
         n = V.n
+        pairs = [(wi2, r2_, q, i) for wi2, r2_ in enumerate(V.wr) for q in V.sub(r2_) for i in range(len(V.kids(q)) - 1)]
+        if pairs and self.rng2.random() < 0.35:
+            # variant: TWO neighbouring children are left out of one children / roots assignment; a new task takes the id of
+            # the second one, which is then handed back below a member that stayed: the id is taken, the call must be rejected
+            wi2, r2_, q, i = self.rng2.choice(pairs)
+            kids_q = V.kids(q)
+            a, b = kids_q[i], kids_q[i + 1]
+            stay2 = [x for x in V.sub(r2_)[1:] if x not in V.sub(a) and x not in V.sub(b)]
+            p2 = self.rng2.choice(stay2) if stay2 and self.rng2.random() < 0.6 else r2_
+            first2 = ['SetChildren', q, [x for x in kids_q if x not in (a, b)]], dict(how, form='list')
+            back2 = (['ChAppend', p2, b], dict(how, facade=None)) if self.rng2.random() < 0.5 or p2 == r2_ else \
+                (['SetParent', b, p2], dict(how, v=None))
+            self.queue = [(['NewTask', V.tid(b), None, 'r', None], {}), (['ChAppend', r2_, n], dict(how, facade=None)), back2]
+            return first2
         stay = [x for x in V.sub(r)[1:] if x not in V.sub(m)]
         p = rng.choice(stay) if stay and rng.random() < 0.6 else r
         first = rng.choice([(['WbsRemove', wi, m], how), (['ChRemove', V.par(m), m], dict(how, facade=None))])
